@@ -147,6 +147,8 @@ static void dg_as_input(char *buf, size_t n, const uint8_t *d, size_t len, int o
 /* ------------------------------------------------------------------ client side */
 static coap_context_t *cli = NULL, *srv = NULL;
 static coap_session_t *cs = NULL;
+static coap_session_t *sb = NULL;      /* exc: shadow session of the same context, see do_exc */
+static int sb_nacks = 0;
 static coap_endpoint_t *ep = NULL;
 static int cur_ok = 1;                 /* verdict of the next handler call (exc) */
 #define MAXREQ 64
@@ -168,7 +170,7 @@ static int verdict_for(unsigned long long tok) {
 
 static coap_response_t on_resp(coap_session_t *s, const coap_pdu_t *sent, const coap_pdu_t *rcv,
                                const coap_mid_t mid) {
-  (void)s;
+  if (sb && s == sb) { out_add("!shadow-session-got-a-response"); return COAP_RESPONSE_OK; }
   coap_bin_const_t t = coap_pdu_get_token(rcv);
   unsigned long long tok = tokval(t.s, t.length);
   long long st = -1;
@@ -187,7 +189,7 @@ static coap_response_t on_resp(coap_session_t *s, const coap_pdu_t *sent, const 
 
 static void on_nack(coap_session_t *s, const coap_pdu_t *sent, const coap_nack_reason_t reason,
                     const coap_mid_t mid) {
-  (void)s;
+  if (sb && s == sb) { sb_nacks++; return; }
   if (sent) {
     coap_bin_const_t t = coap_pdu_get_token(sent);
     unsigned long long tok = tokval(t.s, t.length);
@@ -210,7 +212,7 @@ static void hook_send(size_t idx) {
     fputs("runaway: more than 200000 datagrams in one case\n", stderr);
     _exit(3);
   }
-  if (vn_out[idx].ctx == cli && cli) {
+  if (vn_out[idx].ctx == cli && cli && vn_out[idx].session == cs) {
     char b[160];
     dg_describe(b, sizeof(b), vn_out[idx].data, vn_out[idx].len);
     out_add("tx:%s", b);
@@ -218,9 +220,19 @@ static void hook_send(size_t idx) {
 }
 
 /* the application sends a CON GET /<style>; returns 0 when skipped */
+/* the node of a session in the context's send queue, and when it is due */
+static coap_queue_t *queue_node(coap_session_t *s, coap_tick_t *due) {
+  coap_tick_t t = cli->sendqueue_basetime;
+  for (coap_queue_t *q = cli->sendqueue; q; q = q->next) {
+    t += q->t;
+    if (q->session == s) { if (due) *due = t; return q; }
+  }
+  return NULL;
+}
+
 static int app_method = COAP_REQUEST_CODE_GET;   /* H<n> in exc, H <n> in exe */
 static int app_send(int sty, int ok) {
-  if (cli->sendqueue != NULL || cs->delayqueue != NULL) {
+  if (queue_node(cs, NULL) != NULL || cs->delayqueue != NULL) {
     out_add("skip");
     return 0;
   }
@@ -260,6 +272,7 @@ static void client_setup(const coap_address_t *server, int maxr, int mid0, long 
 static void all_teardown(void) {
   recording = 0;
   vn_on_send = NULL;
+  if (sb) { coap_session_release(sb); sb = NULL; }
   if (cs) { vn_unregister_client(cs); coap_session_release(cs); cs = NULL; }
   if (cli) { coap_free_context(cli); cli = NULL; }
   if (srv) { coap_free_context(srv); srv = NULL; ep = NULL; }
@@ -308,6 +321,17 @@ static void do_exc(void) {
   vn_now = 1000;
   vn_prng_seed(11);
   client_setup(&peer, maxr, mid0, tok0);
+  /* a second session of the same context towards another peer.  Whenever the session under
+     test sends a request, the shadow session sends one with the same message id and the same
+     token; nothing ever answers it.  Datagrams delivered to the session under test must leave the
+     shadow's request alone (the send queue is shared by the sessions of a context). */
+  {
+    coap_address_t peer2;
+    vn_addr4(&peer2, VN_LOOPBACK, 5684);
+    sb = coap_new_client_session(cli, NULL, &peer2, COAP_PROTO_UDP);
+    if (sb && maxr >= 0) coap_session_set_max_retransmit(sb, (uint16_t)maxr);
+    sb_nacks = 0;
+  }
   use_tok_verdict = 0;
   app_method = COAP_REQUEST_CODE_GET;
   sb_reset(&steps); sb_reset(&times); nsteps = 0;
@@ -316,17 +340,30 @@ static void do_exc(void) {
     char in[128];
     if (a[0] == 'H') { app_method = atoi(a + 1); continue; }   /* method of the following sends */
     step_begin();
+    int sb_before = sb && queue_node(sb, NULL) != NULL, sb_nacks_before = sb_nacks;
     if (a[0] == 'S') {
       int sty = atoi(a + 1);
       cur_ok = 1;
-      app_send(sty, 1);
+      if (app_send(sty, 1) && sb && !sb_before && sb->delayqueue == NULL && nreqs > 0) {
+        sb->tx_mid = (uint16_t)(reqs[nreqs - 1].mid - 1);
+        sb->tx_token = reqs[nreqs - 1].tok - 1;
+        coap_pdu_t *p = coap_new_pdu(COAP_MESSAGE_CON, (coap_pdu_code_t)app_method, sb);
+        uint8_t tk[8];
+        size_t tl;
+        coap_session_new_token(sb, &tl, tk);
+        coap_add_token(p, tl, tk);
+        coap_add_option(p, COAP_OPTION_URI_PATH, 1, (const uint8_t *)"p");
+        coap_send(sb, p);
+        sb_before = queue_node(sb, NULL) != NULL;
+      }
       snprintf(in, sizeof(in), "S%d", sty);
     } else if (a[0] == 'T') {
-      /* the retransmission timer of the queued request: advance to the due time of the head
-         of the send queue (other timers of the client - lg_crcv expiry - are not inputs of
-         the model); with nothing queued, let whatever timer there is pass */
-      if (cli->sendqueue) {
-        coap_tick_t due = cli->sendqueue_basetime + cli->sendqueue->t;
+      /* the retransmission timer of the queued request: advance to the due time of this
+         session's node in the send queue (other timers of the client - lg_crcv expiry, the
+         shadow session's retransmissions - are not inputs of the model); with nothing queued,
+         let whatever timer there is pass */
+      coap_tick_t due = 0;
+      if (queue_node(cs, &due)) {
         if (due > vn_now) vn_now = due;
         vn_prepare(cli);
       } else {
@@ -356,6 +393,8 @@ static void do_exc(void) {
     } else {
       snprintf(in, sizeof(in), "?%s", a);
     }
+    if (sb_before && queue_node(sb, NULL) == NULL && sb_nacks == sb_nacks_before)
+      out_add("!shadow-session-request-removed");
     step_end(in);
   }
   printf("%s\n", steps.s ? steps.s : "");
